@@ -2,10 +2,10 @@ package main
 
 import (
 	"fmt"
-	"os"
 	"go/constant"
 	"go/token"
 	"go/types"
+	"os"
 	"sort"
 	"strings"
 
@@ -599,34 +599,34 @@ type oblig struct {
 }
 
 type absEngine struct {
-	p        *Program
-	pkg      *ssa.Package
-	cellT    *types.Named // the receiver struct whose int fields are cells
-	obl      map[string]*oblig
-	order    []string
-	depth    int
-	maxDepth int
+	p         *Program
+	pkg       *ssa.Package
+	cellT     *types.Named // the receiver struct whose int fields are cells
+	obl       map[string]*oblig
+	order     []string
+	depth     int
+	maxDepth  int
 	important []string
 	// hooks
-	onCall   func(e *absEngine, fr *frame, st *nst, call *ssa.Call) // observe calls (obligations of clients)
-	onReturn func(e *absEngine, fr *frame, st *nst, ret *ssa.Return)
-	onStoreCell func(e *absEngine, fr *frame, st *nst, cell string)
-	loopCheck bool
-	steps    int
-	dbgState *nst
-	inlineMemo map[string]*nst
-	apLens     bool                // lengths of lists in fields / captured variables are named by access path
-	apField    map[string]fieldRef // access-path length symbol -> the field it reads
-	memoCases  map[string][]retCase // per memo key: the return states by nil-ness of the error result
-	retCases   map[string][]retCase // per frame ctx + call: the cases of the last analysis of that call
-	structFields map[string][]string // struct type name -> tracked int field paths
+	onCall       func(e *absEngine, fr *frame, st *nst, call *ssa.Call) // observe calls (obligations of clients)
+	onReturn     func(e *absEngine, fr *frame, st *nst, ret *ssa.Return)
+	onStoreCell  func(e *absEngine, fr *frame, st *nst, cell string)
+	loopCheck    bool
+	steps        int
+	dbgState     *nst
+	inlineMemo   map[string]*nst
+	apLens       bool                 // lengths of lists in fields / captured variables are named by access path
+	apField      map[string]fieldRef  // access-path length symbol -> the field it reads
+	memoCases    map[string][]retCase // per memo key: the return states by nil-ness of the error result
+	retCases     map[string][]retCase // per frame ctx + call: the cases of the last analysis of that call
+	structFields map[string][]string  // struct type name -> tracked int field paths
 }
 
 type frame struct {
-	fn   *ssa.Function
-	ctx  string
-	rec  bool // recording obligations
-	rets []*retState
+	fn       *ssa.Function
+	ctx      string
+	rec      bool // recording obligations
+	rets     []*retState
 	retNames map[string]bool // names of the integer values the function may return (lazily computed)
 }
 
@@ -1243,7 +1243,7 @@ func (e *absEngine) call(fr *frame, st *nst, call *ssa.Call) {
 		st.z.add("", ln, -1) // at least one element for a non-empty separator
 		return
 	case "strings.IndexByte", "strings.IndexRune", "strings.IndexFunc", "strings.IndexAny", "strings.LastIndexByte", "strings.LastIndexFunc", "strings.LastIndexAny",
-		"bytes.IndexByte", "bytes.IndexRune", "bytes.IndexFunc", "bytes.IndexAny":
+		"bytes.IndexByte", "bytes.IndexRune", "bytes.IndexFunc", "bytes.IndexAny", "slices.IndexFunc", "slices.Index":
 		// -1 <= r <= len(s) - 1
 		st.forget(name)
 		st.z.add("", name, 1)
